@@ -26,7 +26,10 @@ ConsistentSeq(chars, l, hasLoc, root) ==
 (* ["sop", alphabet, root, preChars, preLoc, preHasLoc, op, args, outcome] *)
 VSop(ev) ==
   LET root == ev[3] pc == ev[4] pl == ev[5] ph == ev[6] op == ev[7] ar == ev[8] o == ev[9] n == Len(ev[4]) IN
-  IF ~ConsistentSeq(pc, pl, ph, root) THEN "ok"       \* an inconsistent operand was already reported
+  \* the receiver itself: its recorded location must still describe its characters (it may be an operand of an earlier
+  \* operation asked again).  With self-overlap the keyed order finding already covers the object that produced it.
+  \* ev[10] = lineage flag: an ancestor of this receiver sat on a self-overlapping location.
+  IF ~ConsistentSeq(pc, pl, ph, root) THEN (IF (ph /\ SelfOverlap(pl)) \/ ev[10] THEN "ok" ELSE "operand:location-consistent")
   ELSE IF op = "slice" THEN
      \* ar = <<a, b, step, openBound>> with a, b already made explicit (0 / n) when the request left them open
      LET a == ar[1] b == ar[2] step == ar[3] open == ar[4] plain == (step = 1) IN
